@@ -246,7 +246,8 @@ def _table(rng, n):
 def _json_doc(rng, depth=0):
     r = rng.random()
     if depth >= 3 or r < 0.35:
-        return rng.choice([0, 1, -5, 2 ** 40, 0.5, -2.25, True, False, None, "", "x", "naïve ünï", "a b", "123", "null"])
+        return rng.choice([0, 1, -5, 2 ** 40, 2 ** 53, 2 ** 53 + 1, -(2 ** 60), 2 ** 63 - 1, 10 ** 30, 0.5, -2.25, 1e300, True, False, None,
+                           "", "x", "naïve ünï", "a b", "123", "null", "9007199254740993", "line\nbreak", "tab\t", "quote\"q", "back\\slash"])
     if r < 0.65:
         return [_json_doc(rng, depth + 1) for _ in range(rng.randint(0, 3))]
     return {rng.choice(["a", "b", "key 1", "ü", "nested", "0"]) + str(k): _json_doc(rng, depth + 1) for k in range(rng.randint(0, 3))}
@@ -257,6 +258,8 @@ def cases(tier, rng):
     # corpus: D16 witnesses and a plain name
     for a in ["hg19", "123", "null", "true", "1e5", "mm10.v2", "[1]", "unknown", '"q"']:
         yield "metadata", {"metadata": {"a": 1}, "assembly": a}
+    # witnesses of seeded change C01-1 (large integers must come back as integers)
+    yield "metadata", {"metadata": {"n": 2 ** 53, "deep": [{"m": -(2 ** 63)}], "s": "9007199254740993"}, "assembly": "hg19"}
     nmax = 9 if thorough else 6
     reps = 500 if thorough else 90
     for k in range(reps):
